@@ -124,7 +124,9 @@ Reopen == /\ UNCHANGED <<store, ids, hist>>
           /\ lastAct' = [k |-> "reopen", r |-> "ok"]
 
 (* The process is killed while one operation is in flight (never acknowledged) and the database is
-   opened again: every acknowledged operation is kept, the one in flight may or may not be. *)
+   opened again: every acknowledged operation is kept, the one in flight may or may not be.
+   (Steps_Store.tla spells out the persistent writes of every operation - the allocation of an identifier
+   is two of them - and puts the kill between any two; its ghost `abs` is this module's `store`.) *)
 Crash == /\ WithCrash
          /\ \/ UNCHANGED <<store, ids, hist>>
             \/ \E a \in Agents, i \in Items :
